@@ -54,7 +54,7 @@ func main() {
 		auxBehaviours = *behaviours
 		stats = famSchema(tr, *scratch, *seed, *tier, *repo, *nfpmBin)
 	case "sign":
-		stats = famSign(tr, *scratch, *seed, *tier, *repo)
+		stats = famSign(tr, *scratch, *seed, *tier, *repo, *behaviours)
 	case "iso":
 		stats = famIso(tr, *scratch, *seed, *tier, *workers, *behaviours)
 	case "conc":
